@@ -127,6 +127,8 @@ impl Pool {
                 rusqlite::params![],
             )
             .map_err(|e| Error::emit("Creating table leases", &e))?;
+        #[cfg(erbium_verif)]
+        verif::crashpoint()?;
         Ok(1)
     }
 
@@ -137,6 +139,8 @@ impl Pool {
                 rusqlite::params![],
             )
             .map_err(|e| Error::emit("Upgrading to schema version 1", &e))?;
+        #[cfg(erbium_verif)]
+        verif::crashpoint()?;
         Ok(1)
     }
 
@@ -157,6 +161,8 @@ impl Pool {
                 rusqlite::params![],
             )
             .map_err(|e| Error::emit("Creating table schema_version", &e))?;
+        #[cfg(erbium_verif)]
+        verif::crashpoint()?;
 
         loop {
             let upgraded_to_version = match self
@@ -187,6 +193,8 @@ impl Pool {
                     rusqlite::params![DB_SCHEMA_KEY, upgraded_to_version],
                 )
                 .map_err(|e| Error::emit("Creating updating schema version", &e))?;
+            #[cfg(erbium_verif)]
+            verif::crashpoint()?;
         }
         Ok(self)
     }
@@ -201,6 +209,21 @@ impl Pool {
             .map_err(|e| Error::emit("Creating database in memory database", &e))?;
 
         Self::new_with_conn(conn)
+    }
+
+    /// Verification hook: open the lease store at a caller-chosen path.
+    #[cfg(erbium_verif)]
+    pub fn verif_open(path: &str) -> Result<Pool, Error> {
+        let conn = rusqlite::Connection::open(path)
+            .map_err(|e| Error::emit("Creating database (verif)", &e))?;
+        Self::new_with_conn(conn)
+    }
+
+    /// Verification hook: the underlying connection (raw row dumps, shifting
+    /// stored timestamps to advance time, building old-schema databases).
+    #[cfg(erbium_verif)]
+    pub fn verif_conn(&self) -> &rusqlite::Connection {
+        &self.conn
     }
 
     pub fn new() -> Result<Pool, Error> {
@@ -761,4 +784,34 @@ fn dont_hand_out_old_stale_lease() {
 
     /* Do not assigned the old_reserved address! */
     assert_ne!(lease.ip, old_reserved);
+}
+
+/// Verification hooks (built only with `--cfg erbium_verif`): simulated crash
+/// between the statements of `setup_db`.
+#[cfg(erbium_verif)]
+pub mod verif {
+    use std::cell::Cell;
+    thread_local! {
+        static CRASH_AFTER: Cell<i64> = const { Cell::new(-1) };
+    }
+    /// The `n`th statement boundary (1-based) reached from now on on this
+    /// thread aborts `setup_db` as if the process had been killed there;
+    /// negative disables.
+    pub fn set_crash_after(n: i64) {
+        CRASH_AFTER.with(|c| c.set(n));
+    }
+    pub(super) fn crashpoint() -> Result<(), super::Error> {
+        CRASH_AFTER.with(|c| {
+            let v = c.get();
+            if v < 0 {
+                Ok(())
+            } else if v <= 1 {
+                c.set(-1);
+                Err(super::Error::DbError("verif: simulated crash".into()))
+            } else {
+                c.set(v - 1);
+                Ok(())
+            }
+        })
+    }
 }
